@@ -126,4 +126,11 @@ theorem view_dropPromises (l : List Nat) (s : Streams) :
 @[simp] theorem view_refClearRecvBuffer (s : Streams) (id : Nat) : view (s.refClearRecvBuffer id) = view s := by
   unfold Streams.refClearRecvBuffer; simp
 
+@[simp] theorem view_refPollPushed (s : Streams) (id : Nat) (t : String) : view (s.refPollPushed id t).1 = view s := by
+  unfold Streams.refPollPushed
+  rcases h : s.recvPollPushed id t with ⟨s1, r⟩
+  have hv : view s1 = view s := by
+    have := view_recvPollPushed s id t; rw [h] at this; exact this
+  cases r <;> simp [hv]
+
 end H2V.Lemmas.ConnCtlP
